@@ -1055,6 +1055,7 @@ class TrainableDist(DelayDistribution):
                             None,
                             1,
                         ),
+                        out_axes=1,
                     )(ts_recv_interp, ts_recv_mask, _fp_batch).reshape(_f_shape)
                 else:
                     res = jnp.interp(ts_recv_interp, ts_recv_mask, _fp)
